@@ -243,8 +243,10 @@ class AbstractHasAxes(AbstractHasMetadata):
             if len(newdims) != len(self.dims):
                 raise ValueError("dimensions number mismatch")
             newdims = dict(zip(self.dims, newdims))
-        for old in newdims.keys():
-            self.axes[old].name = newdims[old]
+        # look all axes up before renaming any of them (swaps such as ('y', 'x'))
+        renamed = [(self.axes[old], newdims[old]) for old in newdims.keys()]
+        for ax, new in renamed:
+            ax.name = new
 
     @property
     def axes(self):
